@@ -1,8 +1,11 @@
 (* Property C09 - rendering respects the symmetries of the model.  Statements
    only; proofs in Proofs/SymmetryProofs.v over the three evaluation kernels
-   REGENERATED from rendering.py.  Pointwise statements: X = column, Y = row. *)
+   REGENERATED from rendering.py.  Pointwise statements: X = column, Y = row.
+   Image level (last two theorems): the PSF convolution step (circular convolution, which C03 proves is what
+   irfft2(rfft2 . * rfft2 .) computes) commutes with whole-pixel translations and with transposition. *)
 From Coq Require Import Reals.
-From PS Require Import Base.RBase Gen.Formulas Proofs.SymmetryProofs.
+From Coquelicot Require Import Coquelicot.
+From PS Require Import Base.RBase Base.Dft Base.Dft2 Gen.Formulas Proofs.SymmetryProofs Proofs.ConvSymmetry.
 Open Scope R_scope.
 
 (* ---- theta + pi ---- *)
@@ -55,6 +58,18 @@ Theorem C09_theta_mod_pi : forall X Y xc yc r e t (k : nat),
   sersic2d_zsq X Y xc yc r e (t + INR k * PI) = sersic2d_zsq X Y xc yc r e t.
 Proof. exact zsq_theta_kpi. Qed.
 
+(* ---- image level: the convolution step is covariant ---- *)
+(* translating the intrinsic scene by (sy, sx) whole pixels translates the PSF-convolved image by the same amount *)
+Theorem C09_convolution_commutes_with_translation : forall N a b sy sx r c,
+  (0 < N)%nat -> (sy < N)%nat -> (sx < N)%nat -> (r < N)%nat -> (c < N)%nat ->
+  circ_conv2 N (shift2 N sy sx a) b r c = shift2 N sy sx (circ_conv2 N a b) r c.
+Proof. exact (fun N a b sy sx r c HN H1 H2 H3 H4 => circ_conv2_shift N HN a b sy sx r c H1 H2 H3 H4). Qed.
+
+(* transposing the intrinsic scene and the PSF transposes the convolved image *)
+Theorem C09_convolution_commutes_with_transpose : forall N a b r c,
+  circ_conv2 N (transpose2 a) (transpose2 b) r c = transpose2 (circ_conv2 N a b) r c.
+Proof. exact circ_conv2_transpose. Qed.
+
 Print Assumptions C09_theta_pi.
 Print Assumptions C09_round_independent_of_theta.
 Print Assumptions C09_transpose.
@@ -62,3 +77,5 @@ Print Assumptions C09_mirror.
 Print Assumptions C09_translation_real.
 Print Assumptions C09_translation_fourier.
 Print Assumptions C09_theta_mod_pi.
+Print Assumptions C09_convolution_commutes_with_translation.
+Print Assumptions C09_convolution_commutes_with_transpose.
